@@ -47,6 +47,8 @@ struct Recorder : mp::ErrorHandler, mp::OutputHandler {
   void HandleError(fmt::CStringRef s) override { events.push_back({'e', s.c_str()}); }
 };
 
+static const char *DECLS[] = {"alg:iter iterlim maxit", "alg:mode\tmode", "tol:gap  gap mipgap ", "tech:log logfile\nlog_file",
+                              "tech:quiet quiet silent", "lim:*:wt limit_*_w\twt*"};
 class TestSolver : public mp::BasicSolver {
  public:
   Recorder rec;
@@ -71,20 +73,21 @@ class TestSolver : public mp::BasicSolver {
   struct FlagOption : mp::SolverOption {
     bool &value;
     explicit FlagOption(bool &v)
-      : SolverOption("tech:quiet quiet silent", "Single-word phrase: be quiet.", mp::ValueArrayRef(), true), value(v) {}
+      : SolverOption(DECLS[4], "Single-word phrase: be quiet.", mp::ValueArrayRef(), true), value(v) {}
     void Write(fmt::Writer &w) override { w << value; }
     void Parse(const char *&, bool) override { value = true; }
     Option_Type type() override { return Option_Type::BOOL; }
   };
 
   TestSolver() : BasicSolver("vsolver", "Verif Solver", 20240320, 0) {
-    AddIntOption("alg:iter iterlim maxit", "Iteration limit.", &TestSolver::GetInt, &TestSolver::SetInt);
-    AddIntOption("alg:mode mode", "Mode.", &TestSolver::GetInt, &TestSolver::SetInt);
-    AddDblOption("tol:gap gap mipgap", "Gap.", &TestSolver::GetGap, &TestSolver::SetGap);
-    AddStrOption("tech:log logfile log_file", "Log file.", &TestSolver::GetLog, &TestSolver::SetLog);
+    // the name lists as registered: names separated by white space of any kind and amount
+    AddIntOption(DECLS[0], "Iteration limit.", &TestSolver::GetInt, &TestSolver::SetInt);
+    AddIntOption(DECLS[1], "Mode.", &TestSolver::GetInt, &TestSolver::SetInt);
+    AddDblOption(DECLS[2], "Gap.", &TestSolver::GetGap, &TestSolver::SetGap);
+    AddStrOption(DECLS[3], "Log file.", &TestSolver::GetLog, &TestSolver::SetLog);
     AddOption(OptionPtr(new FlagOption(quiet)));
     // synonyms whose text around the * differs in length from the standard name
-    AddDblOption("lim:*:wt limit_*_w wt*", "Weight of limit *.", &TestSolver::GetWt, &TestSolver::SetWt);
+    AddDblOption(DECLS[5], "Weight of limit *.", &TestSolver::GetWt, &TestSolver::SetWt);
     set_output_handler(&rec);
   }
 };
@@ -112,6 +115,8 @@ static void print_table(FILE *out) {
       fprintf(out, "%s\"%s\"", k ? "," : "", hex(o.inline_synonyms()[k]).c_str());
     fprintf(out, "],\"type\":\"%s\",\"wild\":%s}", type_name(o), o.is_wildcard() ? "true" : "false");
   }
+  fprintf(out, "],\"decls\":[");
+  for (size_t k = 0; k < sizeof(DECLS) / sizeof(*DECLS); ++k) fprintf(out, "%s\"%s\"", k ? "," : "", hex(DECLS[k]).c_str());
   fprintf(out, "]}\n");
 }
 
